@@ -62,6 +62,21 @@ CLAIMS["C13"] = dict(
         "without a runtime primitive).",
    design="6/C13", technique="Coq proof parametric in extracted tables (re-extraction + instance lemma) + correspondence on planted defects",
    note="The no-crash half rests on the generator/runtime models of C01/C05 for its proof; here it is validated by execution only.")
+CLAIMS["C03"] = dict(
+   text="Coq theorems (Props/C03.v), for every monotone method table, every grammar and every rule order: the rule flags "
+        "computed by the model of compute_nullables (depth-first passes with a visited set, repeated until stable; "
+        "generated from the NullableVisitor method bodies and __iter__ tables extracted from the source on every run) "
+        "are the LEAST set closed under the nullability equations, hence independent of the order of the rules. "
+        "Instance lemmas re-proved each run: the extracted table is monotone, total and well-formed (a visit_* method "
+        "that is never dispatched, as visit_LookAhead was, fails it). Correspondence: rule/item nullable flags, first "
+        "graph, left-recursive/leader flags of the model vs the implementation over grammars x permutations. On the "
+        "implementation: flags equal across permutations, parse results equal across permutations on enumerated inputs, "
+        "no RecursionError for grammars without recursion through lookahead operands.",
+   design="6/C03", technique="Coq proof (simulation of the stateful visitor by its pure reading; least pre-fixed point) + table re-extraction + correspondence over permutations",
+   note="Partial: order independence of the per-item flags/first graph and the semantic soundness of the analysis w.r.t. "
+        "PEG (every same-position re-entry follows a first-graph edge; no unbounded recursion) are validated by the "
+        "correspondence and the permutation/parse sweeps, not yet by theorems. Completeness of left-recursion marking is "
+        "relative to the SCC computation (C16).")
 NOT_YET = {}
 NOT_APPLICABLE = {
  "C06": "equates the generated parser with CPython's own C parser/ast.parse, for which no executable model exists "
